@@ -362,6 +362,87 @@ def run_poly1d_seq(case, seed, R):
 
 
 # =================================================================================================
+# threshold orders (overflow points of factorial / gamma / Pochhammer, n = 171), Jacobi family
+
+HORD = [60, 100, 170, 171, 172, 200, 256]
+HPTS = np.array([-0.8, -0.45, -0.1, 0.25, 0.6, 0.8])
+HDOM = (-0.9, 0.9)      # interpolation interval: keeps the end-point growth n^max(alpha,beta) of Jacobi polynomials out of the oracle's scale
+HJAC = [[0, 0], [-0.5, -0.5], [0.5, 0.5], [-0.5, 0.5], [0.5, -0.5], [0, 4], [2.5, 0.3], [1, 2], [-0.9, 7.25]]
+
+
+def cheb_trig_der(kind, n, x):
+    """Textbook derivatives T_n', U_n', V_n', W_n' from the trigonometric definitions, x = cos(theta)."""
+    th = np.arccos(x)
+    st = np.sin(th)
+    if kind == 1:     # T_n = cos(n th)
+        return n * np.sin(n * th) / st
+    if kind == 2:     # U_n = sin((n+1) th) / sin(th)
+        return (np.sin((n + 1) * th) * np.cos(th) - (n + 1) * np.cos((n + 1) * th) * st) / st ** 3
+    h = n + 0.5
+    if kind == 3:     # V_n = cos((n+1/2) th) / cos(th/2)
+        dth = (-h * np.sin(h * th) * np.cos(th / 2) + 0.5 * np.cos(h * th) * np.sin(th / 2)) / np.cos(th / 2) ** 2
+    else:             # W_n = sin((n+1/2) th) / sin(th/2)
+        dth = (h * np.cos(h * th) * np.sin(th / 2) - 0.5 * np.sin(h * th) * np.cos(th / 2)) / np.sin(th / 2) ** 2
+    return -dth / st
+
+
+def run_high_order(case, seed, R):
+    name, n, par = case['fam'], case['n'], case['par']
+    fam = FAMS[name]
+    x = HPTS
+    cell = 'high:' + ('n<=170' if n <= 170 else 'n>=171')
+    orders = [n - 1, n]
+    # oracle 1: the value routine, spectrally differentiated on HDOM (exact degree n; tolerance K eps (n+1)^2 scale / 0.9)
+    xn = 0.5 * (HDOM[0] + HDOM[1]) + 0.5 * (HDOM[1] - HDOM[0]) * cheb_nodes(n + 1 + 6)      # the nodes Cheb1D(.., deg=n) samples
+    rows = [R.call(fam['val'], m, xn.copy(), *par, sig=f'{name}:{cell}:value-routine:exception') for m in orders]
+    finite = all(v is not FAILED and np.all(np.isfinite(np.asarray(v, dtype=float))) for v in rows)
+    orc = None
+    if finite:
+        orc = Cheb1D(lambda t: np.array([np.asarray(v, dtype=float) * np.ones_like(t) for v in rows]), *HDOM, n)
+        for i, m in enumerate(orders):
+            tail = max(float(orc.tail[i]), float(np.max(np.abs(orc.c[m + 1:, i]))) if orc.c.shape[0] > m + 1 else 0.0)
+            orc.c[m + 1:, i] = 0.0
+            R.expect(tail <= 1e4 * EPS * (n + 2) * (orc.scale[i] + 1e-300), f'{name}:value-not-degree-n',
+                     f'value routine of order {m} is not a polynomial of degree {m} (tail {tail:.3e}); oracle invalid')
+    # oracle 2 (Chebyshev kinds): the trigonometric closed forms, independent of the value routine
+    kind = int(name[-1]) if name.startswith('cheby') else 0
+    wants, conds = [], []
+    for i, m in enumerate(orders):
+        if kind:
+            w = cheb_trig_der(kind, m, x)
+            cd = (m + 1.0) * np.max(np.abs(w)) * 4      # argument error m*eps inside the sines times the amplitude m/sin^k(theta)
+            if orc is not None:
+                co, ci = orc.cond(x)
+                R.expect(np.all(np.abs(orc.der(x)[i] - w) <= KTOL * EPS * (cd + co[i] + ci[i])), f'{name}_der:{cell}:oracle-disagreement',
+                         f'order {m}: the closed form of the derivative and the differentiated value routine disagree (max {float(np.max(np.abs(orc.der(x)[i] - w))):.3e})')
+        elif orc is not None:
+            w = orc.der(x)[i]
+            co, ci = orc.cond(x)
+            cd = float(co[i] + ci[i])
+        else:
+            if not R.violations:
+                R.violation(f'{name}:{cell}:value-routine', f'value routine of order {m} returns non-finite samples at interior points')
+            return
+        wants.append(w)
+        conds.append(cd)
+    want, cd = wants[1], conds[1]
+    sig = f'{name}_der:{cell}'
+    got = R.call(fam['der'], n, x.copy(), *par, sig=sig + ':exception')
+    close(R, got, want, cd, sig, f'{name}_der({n}, {par}) at {len(x)} interior points')
+    got = R.call(fam['der'], n, float(x[2]), *par, sig=sig + ':exception')
+    close(R, got, want[2], cd, sig, f'{name}_der({n}, {par}) at scalar x={float(x[2])}')
+    sigs = f'{name}_der_seq:{cell}'
+    got = R.call(fam['seq'], [n], x.copy(), *par, sig=sigs + ':exception')
+    close(R, got, want[None, :], cd, sigs, f'{name}_der_seq([{n}], {par})')
+    got = R.call(fam['seq'], [0, 1, n - 1, n], x.copy(), *par, sig=sigs + ':exception')
+    if got is not FAILED and R.expect(np.asarray(got).shape == (4, len(x)), sigs + ':shape', f'shape {np.asarray(got).shape}'):
+        close(R, np.asarray(got)[2], wants[0], conds[0], sigs, f'{name}_der_seq([0,1,{n - 1},{n}], {par}) row 2')
+        close(R, np.asarray(got)[3], wants[1], conds[1], sigs, f'{name}_der_seq([0,1,{n - 1},{n}], {par}) row 3')
+    R.nontrivial()
+    R.outcome('high')
+
+
+# =================================================================================================
 # Zernike
 
 ZR = np.array([0.0, 0.1, 0.25, 0.5, 2 / 3, 0.9, 1.0])
@@ -467,9 +548,10 @@ def run_jacobi_clenshaw(case, seed, R):
     if not orc.ok:
         return
     R.expect(orc.tail_ok(), 'jacobi:value-not-degree-n', f'sum of jacobi values is not of degree {L - 1}; oracle invalid')
+    sa = np.array(s, dtype=np.float64)      # one ndarray object, reused by every call of the case (watched by the hygiene layer)
     for j in case['js']:
         sig = f'jacobi_sum_clenshaw_der:{jcls(j, L)}'
-        for arg in (s, np.array(s)):
+        for arg in (s, sa):
             out = check_alphas(R, R.call(P.jacobi_sum_clenshaw_der, arg, a, b, x.copy(), j=j, sig=sig + ':exception'), j, L, len(x), sig)
             if out is None:
                 continue
@@ -506,9 +588,10 @@ def run_qbfs_clenshaw(case, seed, R):
     if not orc.ok:
         return
     R.expect(orc.tail_ok(), 'Qbfs:value-not-degree-n', f'sum of Qbfs/(x(1-x)) is not of degree {L - 1} in x; oracle invalid (tail {orc.tail:.3e})')
+    csa = np.array(cs, dtype=np.float64)
     for j in case['js']:
         sig = f'clenshaw_qbfs_der:{jcls(j, L)}'
-        for arg in (cs, np.array(cs)):
+        for arg in (cs, csa):
             out = check_alphas(R, R.call(qpoly.clenshaw_qbfs_der, arg, XQ.copy(), j=j, sig=sig + ':exception'), j, L, len(XQ), sig)
             if out is None:
                 continue
@@ -539,9 +622,10 @@ def run_q2d_clenshaw(case, seed, R):
         return
     mc_ = 'm=1' if m == 1 else 'm>1'
     R.expect(orc.tail_ok(), 'Q2d:value-not-degree-n', f'sum of Q2d/u^m is not of degree {L - 1} in x; oracle invalid (tail {orc.tail:.3e})')
+    csa = np.array(cs, dtype=np.float64)
     for j in case['js']:
         sig = f'clenshaw_q2d_der:{mc_}:{jcls(j, L)}'
-        for arg in (cs, np.array(cs)):
+        for arg in (cs, csa):
             out = check_alphas(R, R.call(qpoly.clenshaw_q2d_der, arg, m, XQ.copy(), j=j, sig=sig + ':exception'), j, L, len(XQ), sig)
             if out is None:
                 continue
@@ -570,7 +654,7 @@ def run_zprime_1d(case, seed, R):
     fn = qpoly.compute_z_zprime_Qbfs if kind == 'Qbfs' else qpoly.compute_z_zprime_Qcon
     name = f'compute_z_zprime_{kind}'
     sig = f'{name}:{lcls(L)}'
-    for arg in (cs, np.array(cs)):
+    for arg in (cs, np.array(cs, dtype=np.float64)):
         def f(un):
             out = R.call(fn, arg, un.copy(), un * un, sig=sig + ':exception')
             if out is FAILED:
@@ -640,8 +724,9 @@ def run_zprime_q2d(case, seed, R):
     degr = max([2 * st['c'] + 2] + [mi + 1 + 2 * (max(a, b) - 1) for mi, (a, b) in enumerate(st['ab'])])
     sig = f'compute_z_zprime_Q2d:{q2d_stcls(st)}'
 
-    def call(u, t):
-        out = R.call(qpoly.compute_z_zprime_Q2d, cm0, ams, bms, u, t, sig=sig + ':exception')
+    def call(u, t, coefs=None):
+        c0_, a_, b_ = coefs or (cm0, ams, bms)
+        out = R.call(qpoly.compute_z_zprime_Q2d, c0_, a_, b_, u, t, sig=sig + ':exception')
         if out is FAILED:
             return FAILED
         if not (isinstance(out, tuple) and len(out) == 3):
@@ -662,6 +747,15 @@ def run_zprime_q2d(case, seed, R):
         return
     close(R, out[1], orc.eval(UQ, ZT, dr=1), sum(orc.cond(UQ, ZT, dr=1)), sig + ':dr', f'dz/du vs d/du of the returned z; cm0={cm0} ams={ams} bms={bms} (unit coefficient in {q2d_where(st, k)})')
     close(R, out[2], orc.eval(UQ, ZT, dt=1), sum(orc.cond(UQ, ZT, dt=1)), sig + ':dt', f'dz/dt vs d/dt of the returned z; cm0={cm0} ams={ams} bms={bms}')
+    # the same with float64 ndarray coefficients (one set of objects, two calls)
+    arrs = (np.array(cm0, dtype=np.float64), [np.array(a, dtype=np.float64) for a in ams], [np.array(b, dtype=np.float64) for b in bms])
+    for _ in range(2):
+        out = call(Ug.copy(), Tg.copy(), arrs)
+        if out is FAILED:
+            return
+        close(R, out[0], orc.eval(UQ, ZT), orc.scale * (degr + 1 + M), sig + ':ndarray-coefs', 'z with ndarray coefficients vs z with list coefficients')
+        close(R, out[1], orc.eval(UQ, ZT, dr=1), sum(orc.cond(UQ, ZT, dr=1)), sig + ':dr', 'dz/du with ndarray coefficients')
+        close(R, out[2], orc.eval(UQ, ZT, dt=1), sum(orc.cond(UQ, ZT, dt=1)), sig + ':dt', 'dz/dt with ndarray coefficients')
     R.nontrivial()
     R.outcome('unit' if k >= 0 else 'dense')
 
@@ -701,12 +795,13 @@ def both_oracles(R, f, x, h, sig, what):
 def run_conic_radial(case, seed, R):
     c, k = case['c'], case['k']
     rho = CR.copy()
+    c0 = ':c=0' if c == 0 else ''
     # sphere (only once per c: k == 0 cell carries it)
     if k == 0:
         want = both_oracles(R, lambda r: V(R, S.sphere_sag, c, r * r), rho, 1.0, 'sphere_sag_der', 'sphere_sag')
         tol = np.abs(want) + abs(c) * np.max(rho)
         got = R.call(S.sphere_sag_der, c, rho.copy())
-        close(R, got, want, tol, 'sphere_sag_der', f'sphere_sag_der(c={c}) vs d/drho sphere_sag')
+        close(R, got, want, tol, 'sphere_sag_der' + c0, f'sphere_sag_der(c={c!r}) vs d/drho sphere_sag')
         got = R.call(S.sphere_sag_der, c, rho.copy(), phi=np.sqrt(1 - c * c * rho * rho))
         close(R, got, want, tol, 'sphere_sag_der:phi', f'sphere_sag_der(c={c}, phi=given)')
         got = R.call(S.sphere_sag_der, c, float(rho[3]))
@@ -714,14 +809,14 @@ def run_conic_radial(case, seed, R):
     want = both_oracles(R, lambda r: V(R, S.conic_sag, c, k, r * r), rho, 1.0, 'conic_sag_der', 'conic_sag')
     tol = np.abs(want) + abs(c) * np.max(rho)
     got = R.call(S.conic_sag_der, c, k, rho.copy())
-    close(R, got, want, tol, f'conic_sag_der:{kcls(k)}', f'conic_sag_der(c={c}, k={k}) vs d/drho conic_sag')
+    close(R, got, want, tol, f'conic_sag_der:{kcls(k)}' + c0, f'conic_sag_der(c={c!r}, k={k}) vs d/drho conic_sag')
     phi = np.sqrt(1 - (1 + k) * c * c * rho * rho)
     got = R.call(S.conic_sag_der, c, k, rho.copy(), phi=phi)
     close(R, got, want, tol, f'conic_sag_der:{kcls(k)}:phi', f'conic_sag_der(c={c}, k={k}, phi=given)')
     # d/drho (1/phi)
     want = both_oracles(R, lambda r: 1 / V(R, S.phi_spheroid, c, k, r * r), rho, 1.0, 'der_direction_cosine_spheroid', '1/phi_spheroid')
     tol = np.abs(want) + c * c * np.max(rho)
-    sig = f'der_direction_cosine_spheroid:{kcls(k)}'
+    sig = f'der_direction_cosine_spheroid:{kcls(k)}' + c0
     got = R.call(S.der_direction_cosine_spheroid, c, k, rho.copy())
     close(R, got, want, tol, sig, f'der_direction_cosine_spheroid(c={c}, k={k}) vs d/drho (1/phi_spheroid)')
     got = R.call(S.der_direction_cosine_spheroid, c, k, rho.copy(), rhosq=rho * rho, phi=phi)
@@ -734,7 +829,7 @@ def run_conic_radial(case, seed, R):
 def run_conic_offaxis(case, seed, R):
     c, k, dx, dy = case['c'], case['k'], case['dx'], case['dy']
     Rg, Tg = np.meshgrid(CR, CT, indexing='ij')
-    cell = f'{kcls(k)}:{ocls(dx, dy)}'
+    cell = f'{kcls(k)}:{ocls(dx, dy)}' + (':c=0' if c == 0 else '')
     for name, val, der in (('off_axis_conic_der', lambda r, t: V(R, S.off_axis_conic_sag, c, k, r, t, dx, dy), S.off_axis_conic_der),
                            ('off_axis_conic_sigma_der', lambda r, t: 1 / V(R, S.off_axis_conic_sigma, c, k, r, t, dx, dy), S.off_axis_conic_sigma_der)):
         wr = both_oracles(R, lambda r: val(r, Tg), Rg, 1.0, name + ':dr', name)
@@ -755,25 +850,33 @@ QNORM = 12.0
 QN = QST['c'] + sum(a + b for a, b in QST['ab'])
 
 
+def ccls(c):
+    return 'c=0' if c == 0 else 'c!=0'
+
+
 def run_q2d_and_der(case, seed, R):
-    c, k, dx, dy, kk = case['c'], case['k'], case['dx'], case['dy'], case['coef']
+    c, k, dx, dy, kk, Rn = case['c'], case['k'], case['dx'], case['dy'], case['coef'], case['Rn']
     if kk == -2:
         cm0, ams, bms = q2d_structure(QST, 0, seed)
         cm0[0] = 0.0
     else:
         cm0, ams, bms = q2d_structure(QST, kk, seed)
     scale_q = 0.05    # Q departure comparable to the base conic sag over the aperture
-    cm0 = [v * scale_q for v in cm0]
-    ams = [[v * scale_q for v in a] for a in ams]
-    bms = [[v * scale_q for v in b] for b in bms]
-    Rg, Tg = np.meshgrid(QR, CT, indexing='ij')
+    # float64 ndarray coefficients, the same objects in every call of the case (the hygiene layer of R.call watches them)
+    cm0 = np.array(cm0) * scale_q
+    ams = [np.array(a) * scale_q for a in ams]
+    bms = [np.array(b) * scale_q for b in bms]
+    rr = QR / QNORM * Rn          # the same normalised radii u for every normalisation radius
+    h = Rn / QNORM
+    Rg, Tg = np.meshgrid(rr, CT, indexing='ij')
     # the structure QST holds one length-1 list (its coefficient is the last one); the dense vector includes it
-    cell = f'{kcls(k)}:{ocls(dx, dy)}:' + ('base-only' if kk == -2 else ('q:len=1' if kk in (-1, QN - 1) else 'q:len>1'))
+    cell = f'{ccls(c)}:{kcls(k)}:{ocls(dx, dy)}:' + ('R=1' if Rn == 1 else 'R!=1') + ':' + \
+        ('base-only' if kk == -2 else ('q:len=1' if kk in (-1, QN - 1) else 'q:len>1'))
     sig = f'Q2d_and_der:{cell}'
     bad = []
 
     def call(r, t):
-        out = R.call(S.Q2d_and_der, cm0, ams, bms, r * np.cos(t), r * np.sin(t), QNORM, c, k, dx, dy, sig=sig + ':exception')
+        out = R.call(S.Q2d_and_der, cm0, ams, bms, r * np.cos(t), r * np.sin(t), Rn, c, k, dx, dy, sig=sig + ':exception')
         if out is FAILED or not (isinstance(out, tuple) and len(out) == 3) or np.asarray(out[0]).shape != np.shape(r):
             bad.append(1)
             return np.zeros_like(r)
@@ -782,18 +885,19 @@ def run_q2d_and_der(case, seed, R):
     def z(r, t):
         out = call(r, t)
         return out[0] if isinstance(out, tuple) else out
-    wr, resr, fr = richardson(lambda r: z(r, Tg), Rg, 1.0)
+    wr, resr, fr = richardson(lambda r: z(r, Tg), Rg, h)
     wt, rest, ft = richardson(lambda t: z(Rg, t), Tg, 0.5)
     out = call(Rg, Tg)
     if bad:
         if not R.violations:
             R.violation(sig + ':return', 'Q2d_and_der does not return (z, dr, dt) of the coordinate shape')
         return
-    sc = abs(c) * (np.max(QR) + abs(dx) + abs(dy)) + scale_q
-    close(R, out[1], wr, np.abs(wr) + 16 * fr, sig + ':dr', f'Q2d_and_der d/drho vs Richardson derivative of its own sag (residual {float(np.max(resr)):.2e}); '
-          f'c={c} k={k} dx={dx} dy={dy} cm0={cm0} ams={ams} bms={bms}', extra_tol=10 * resr + 1e-9 * sc)
-    close(R, out[2], wt, np.abs(wt) + 32 * ft, sig + ':dt', f'Q2d_and_der d/dtheta vs Richardson derivative of its own sag (residual {float(np.max(rest)):.2e}); '
-          f'c={c} k={k} dx={dx} dy={dy} cm0={cm0} ams={ams} bms={bms}', extra_tol=10 * rest + 1e-9 * sc * np.max(QR))
+    sc = abs(c) * (np.max(rr) + abs(dx) + abs(dy)) + scale_q / Rn
+    what = f'c={c!r} k={k} dx={dx} dy={dy} normalization_radius={Rn} cm0={cm0.tolist()} ams={[a.tolist() for a in ams]} bms={[b.tolist() for b in bms]}'
+    close(R, out[1], wr, np.abs(wr) + 16 * fr / h, sig + ':dr', f'Q2d_and_der d/drho vs Richardson derivative of its own sag (residual {float(np.max(resr)):.2e}); ' + what,
+          extra_tol=10 * resr + 1e-9 * sc)
+    close(R, out[2], wt, np.abs(wt) + 32 * ft, sig + ':dt', f'Q2d_and_der d/dtheta vs Richardson derivative of its own sag (residual {float(np.max(rest)):.2e}); ' + what,
+          extra_tol=10 * rest + 1e-9 * sc * np.max(rr))
     R.nontrivial()
     R.outcome('base-only' if kk == -2 else 'q')
 
@@ -814,6 +918,8 @@ def plan(tier, seed):
     ns_lists += [list(range(0, NMAX + 1, 2)), list(range(1, NMAX + 1, 2)), list(range(1, NMAX + 1)), list(range(2, NMAX + 1)),
                  list(range(3, NMAX + 1)), [0, NMAX], [1, 4, 9], [2, 3], [0, 2], [1, 3], [0, 3, NMAX - 1]]
     seq_cases = [{'fam': f, 'par': p, 'ns': ns} for ns in ns_lists for f, p in fps]
+    hfp = [('legendre', [])] + [(f'cheby{i}', []) for i in (1, 2, 3, 4)] + [('jacobi', ab) for ab in HJAC]
+    high_cases = [{'fam': f, 'par': p, 'n': n} for n in (HORD if q else HORD + [129, 300, 513]) for f, p in hfp]
     nms = [(n, m) for n in range(ZN + 1) for m in range(-n, n + 1, 2)]
     z_cases = [{'n': n, 'm': m, 'norm': norm} for (n, m) in nms for norm in (True, False)]
     nms6 = [[n, m] for n in range(7) for m in range(-n, n + 1, 2)]
@@ -837,13 +943,15 @@ def plan(tier, seed):
             structs.append({'c': Lc, 'ab': [ab1, lens[(i + 1) % len(lens)], lens[(i + 2) % len(lens)]]})
         structs.append({'c': Lc, 'ab': [[2, 2]] * (4 if q else 6)})
     zq_cases = [{'st': st, 'k': k} for st in structs for k in list(range(st['c'] + sum(a + b for a, b in st['ab']))) + [-1]]
-    CS = [1 / 50, -1 / 80]
+    CS = [1 / 50, -1 / 80, 0, 0.0]      # c exactly zero (flat base), as int and as float
     KS = [0, -1, -0.6, 0.5, -2]
     OFF = [[0, 0], [5, 0], [0, 5], [-3, 0], [0, -7.5]] if q else [[0, 0], [5, 0], [0, 5], [-3, 0], [0, -7.5], [12, 0], [0, 0.25]]
     cr_cases = [{'c': c, 'k': k} for c in CS for k in KS]
     co_cases = [{'c': c, 'k': k, 'dx': dx, 'dy': dy} for c in CS for k in KS for dx, dy in OFF]
     nq = QN
-    qd_cases = [{'c': c, 'k': k, 'dx': dx, 'dy': dy, 'coef': kk} for c in CS for k in KS for dx, dy in OFF for kk in [-2] + list(range(nq)) + [-1]]
+    RNS = [1, 0.5, 25]
+    qd_cases = [{'c': c, 'k': k, 'dx': dx, 'dy': dy, 'coef': kk, 'Rn': QNORM} for c in CS for k in KS for dx, dy in OFF for kk in [-2] + list(range(nq)) + [-1]]
+    qd_cases += [{'c': c, 'k': k, 'dx': dx, 'dy': dy, 'coef': kk, 'Rn': Rn} for Rn in RNS for c in CS for k in KS for dx, dy in OFF for kk in (-2, 0, QST['c'], -1)]
     pts = 'points: end-points, 0 and rationals inside the domain'
     return [
         ScopeUnit('poly1d', poly_cases, run_poly1d,
@@ -853,6 +961,10 @@ def plan(tier, seed):
         ScopeUnit('poly1d_seq', seq_cases, run_poly1d_seq,
                   f'same families/parameters x {len(ns_lists)} order lists (every prefix [0..n], evens, odds, tails, sparse picks): every row of fam_der_seq '
                   'against the differentiated value routine of that order, float64 and float32', reset=reset_all),
+        ScopeUnit('high_order', high_cases, run_high_order,
+                  f'threshold orders n in {HORD} (overflow of n!, gamma, Pochhammer at 171) x Legendre, Chebyshev 1-4, Jacobi (alpha,beta) in {HJAC}: fam_der (array, scalar) and '
+                  f'fam_der_seq ([n] and [0,1,n-1,n]) at {len(HPTS)} interior points against the trigonometric closed forms of T_n\', U_n\', V_n\', W_n\' and against the value routine '
+                  f'differentiated spectrally on {list(HDOM)}; tolerance 1000 eps (n+1) max|f\'| resp. 1000 eps (n+1)^2 max|f| / 0.9; this part is a finite threshold alphabet, not closed over the order', reset=reset_all),
         ScopeUnit('zernike', z_cases, run_zernike,
                   f'every (n,m), n <= {ZN}, both norm flags: zernike_nm_der radial and azimuthal on the {len(ZR)}x{len(ZT)} (r,t) grid (r=0 and r=1 included), on paired '
                   'vectors, and zernike_nm_der_seq([(n,m)]) against Chebyshev(r) x Fourier(t) differentiation of zernike_nm', reset=reset_all),
@@ -877,6 +989,7 @@ def plan(tier, seed):
                   f'(c,k) x (dx,dy) in {OFF}: off_axis_conic_der and off_axis_conic_sigma_der (radial and azimuthal) on the {len(CR)}x{len(CT)} (r,t) grid against complex-step '
                   'derivatives of off_axis_conic_sag and 1/off_axis_conic_sigma, cross-checked by Richardson', reset=reset_all),
         ScopeUnit('q2d_and_der', qd_cases, run_q2d_and_der,
-                  f'(c,k) x (dx,dy) x (base conic only, every unit coefficient of the structure {QST}, dense): Q2d_and_der slopes against Richardson-extrapolated central '
+                  f'(c,k) x (dx,dy) x (base conic only, every unit coefficient of the structure {QST}, dense) at normalization_radius {QNORM}, and x normalization_radius in {RNS} for '
+                  'four coefficient choices; c includes exactly 0 as int and float (flat base); float64 ndarray coefficients reused by every call of a case: Q2d_and_der slopes against Richardson-extrapolated central '
                   'differences (measured residual in the tolerance) of the sag it returns, in rho and theta', reset=reset_all),
     ]
